@@ -255,6 +255,11 @@ func execute(e Engine, req *Request) *Result {
 	return res
 }
 
+// Out is where the worker protocol is written. A harness that wants to observe what the
+// code under test writes to the process's standard output redirects os.Stdout and sets
+// Out to the original stream first.
+var Out = os.Stdout
+
 // Main is the worker entry point. Modes:
 //
 //	-seed S -first i -stride n [-count k] [-deadline unix]   search
@@ -280,7 +285,7 @@ func Main(e Engine, args []string) {
 	if *procs > 0 {
 		runtime.GOMAXPROCS(*procs)
 	}
-	out := bufio.NewWriterSize(os.Stdout, 1<<16)
+	out := bufio.NewWriterSize(Out, 1<<16)
 	defer out.Flush()
 
 	if *child {
